@@ -61,8 +61,20 @@ def seeded():
         keys = ", ".join(f"`{k}`" for k in j.get("keys", [])[:3])
         out.append(f"| {j.get('id')} | {cell(j.get('summary', ''))[:260]} *(needs: {cell(j.get('needs', ''))[:200]})* | {cell(j.get('caught_by', 'not run'))} | {keys} | {cell(first_txt)[:500]} |")
     n_caught = sum(1 for j in rows if str(j.get("caught_by", "")).startswith("C"))
-    head = (f"{len(rows)} regressions confirmed (demonstration passes on the unchanged tree and fails with the change; the repository's test suite passes with the change - "
-            f"`seeded/<id>/confirm.json`), {n_caught} reported by the quick tier of a registered check.\n\n")
+    n_first = sum(1 for j in rows if (j.get("runs") or [{}])[0].get("exit") == 1)
+    n_conf = 0
+    for j in rows:
+        cp = os.path.join(VERIF, "seeded", j.get("id", ""), "confirm.json")
+        if os.path.exists(cp):
+            c = json.load(open(cp))
+            sw = c.get("suite_with_change") or {}
+            if c.get("demo_passes_without_change") and c.get("demo_fails_with_change") and (sw.get("failed") == 0 or sw.get("timing_test_alone_passes")):
+                n_conf += 1
+    head = (f"{len(rows)} regressions kept, in two waves (`S-<property>-1`: first wave, `-2`: second wave written after the first wave's gaps had been closed). "
+            f"{n_conf} are confirmed here by `py/seedconfirm.py` in a scratch worktree (demonstration passes on the unchanged tree and fails with the change; the repository's "
+            f"unedited test suite passes with the change - `seeded/<id>/confirm.json`; the one wall-clock unit test of the repository, `test_sketch_candidate_speed`, is re-run alone when "
+            f"it is the only failure on the loaded machine). {n_first} were reported by the quick tier on the first run, {n_caught} after the strengthening described in the last column; "
+            f"the remaining ones are listed as NOT CAUGHT with the reason.\n\n")
     return head + "\n".join(out)
 
 
